@@ -12,6 +12,8 @@
 package c11
 
 import (
+	"context"
+	"net/http/httptest"
 	"crypto/ecdsa"
 	"crypto/elliptic"
 	"crypto/rand"
@@ -53,6 +55,7 @@ type nameInfo struct {
 	s                  string
 	q, pub, ip, in, ld bool
 	mw                 []bool
+	hm                 []bool // hm[j]: the real MatchHost{name j} matches a request whose Host is this name
 }
 
 type addr struct {
@@ -257,13 +260,14 @@ func parseCase(f []string) (*kase, bool) {
 	}
 	for _, ns := range strings.Split(f[4], ";") {
 		p := strings.Split(ns, ":")
-		if len(p) != 3 || len(p[1]) != 5 {
+		if len(p) != 4 || len(p[1]) != 5 {
 			return nil, false
 		}
 		s, err := core.UnHex(p[0])
 		fl, ok1 := bits(p[1])
 		row, ok2 := bits(p[2])
-		if err != nil || !ok1 || !ok2 {
+		hrow, ok3 := bits(p[3])
+		if err != nil || !ok1 || !ok2 || !ok3 {
 			return nil, false
 		}
 		for i := 0; i < len(s); i++ {
@@ -271,14 +275,14 @@ func parseCase(f []string) (*kase, bool) {
 				return nil, false
 			}
 		}
-		c.names = append(c.names, nameInfo{s, fl[0], fl[1], fl[2], fl[3], fl[4], row})
+		c.names = append(c.names, nameInfo{s, fl[0], fl[1], fl[2], fl[3], fl[4], row, hrow})
 	}
 	if c.names[0].s != "" || len(c.names) > 16 {
 		return nil, false
 	}
 	seen := map[string]bool{}
 	for _, n := range c.names {
-		if len(n.mw) != len(c.names) || seen[n.s] {
+		if len(n.mw) != len(c.names) || len(n.hm) != len(c.names) || seen[n.s] {
 			return nil, false
 		}
 		seen[n.s] = true
@@ -546,6 +550,7 @@ type oserver struct {
 	disabled bool
 	tls      int
 	routes   []oroute
+	served   []string // per probe (names in index order, then the unknown host): what a plain HTTP request gets
 }
 
 type opolicy struct {
@@ -697,6 +702,12 @@ func observe(ctx caddy.Context, c *kase) *obs {
 		for _, r := range srv.Routes {
 			s.routes = append(s.routes, observeRoute(r))
 		}
+		for _, a := range s.listen {
+			if a.coversPort(c.httpPort()) {
+				s.served = c.dispatch(srv)
+				break
+			}
+		}
 		o.servers[name] = s
 	}
 	for _, n := range c.names {
@@ -706,6 +717,94 @@ func observe(ctx caddy.Context, c *kase) *obs {
 	}
 	tlsApp.Cleanup()
 	return o
+}
+
+// ---------------------------------------------------------------- plain HTTP requests against the provisioned server
+
+const unknownHost = "zz.nomatch.invalid"
+
+// probeable: the name can be the Host of a request as it is (letters, digits, dots, dashes, stars).
+func probeable(s string) bool {
+	if s == "" {
+		return false
+	}
+	for i := 0; i < len(s); i++ {
+		ch := s[i]
+		if !(ch >= 'a' && ch <= 'z' || ch >= 'A' && ch <= 'Z' || ch >= '0' && ch <= '9' || ch == '.' || ch == '-' || ch == '*') {
+			return false
+		}
+	}
+	return true
+}
+
+// hostMatches runs the real host matcher for one pattern against a request host.
+func hostMatches(host, pattern string) bool {
+	if !probeable(host) {
+		return false
+	}
+	m := caddyhttp.MatchHost{pattern}
+	if err := m.Provision(caddy.Context{}); err != nil {
+		return false
+	}
+	req := httptest.NewRequest("GET", "http://placeholder.invalid/p?q=1", nil)
+	req.Host = host
+	repl := caddy.NewReplacer()
+	req = req.WithContext(context.WithValue(req.Context(), caddy.ReplacerCtxKey, repl))
+	return m.Match(req)
+}
+
+// serveOne sends one plain HTTP request to the provisioned server (Server.ServeHTTP: the
+// compiled route list, the real matchers and the real static_response handler) and names
+// the answer: u<i> a user route, r<port> the redirect makeRedirRoute builds (308, Location
+// https://<host>[:port]<uri>, Connection: close), - nothing matched, ? anything else.
+func serveOne(srv *caddyhttp.Server, host string) (tok string) {
+	defer func() {
+		if r := recover(); r != nil {
+			tok = "panic"
+		}
+	}()
+	req := httptest.NewRequest("GET", "http://placeholder.invalid/p?q=1", nil)
+	req.Host = host
+	req.RemoteAddr = "192.0.2.1:1234"
+	rec := httptest.NewRecorder()
+	srv.ServeHTTP(rec, req)
+	body := rec.Body.String()
+	switch {
+	case rec.Code == 200 && strings.HasPrefix(body, "u"):
+		if _, err := strconv.Atoi(body[1:]); err == nil {
+			return body
+		}
+	case rec.Code == 200 && body == "":
+		return "-"
+	case rec.Code == 308:
+		loc := rec.Header().Get("Location")
+		pre, suf := "https://"+host, "/p?q=1"
+		if strings.HasPrefix(loc, pre) && strings.HasSuffix(loc, suf) && len(loc) >= len(pre)+len(suf) && body == "" &&
+			strings.EqualFold(rec.Header().Get("Connection"), "close") {
+			mid := loc[len(pre) : len(loc)-len(suf)]
+			if mid == "" {
+				return "r0"
+			}
+			if mid[0] == ':' {
+				if n, ok := nat(mid[1:]); ok && n > 0 {
+					return "r" + strconv.Itoa(n)
+				}
+			}
+		}
+	}
+	return "?" + strconv.Itoa(rec.Code)
+}
+
+func (c *kase) dispatch(srv *caddyhttp.Server) []string {
+	var out []string
+	for _, n := range c.names {
+		if probeable(n.s) {
+			out = append(out, serveOne(srv, n.s))
+		} else {
+			out = append(out, "~")
+		}
+	}
+	return append(out, serveOne(srv, unknownHost))
 }
 
 // provision runs the real provisioning once.
@@ -944,12 +1043,15 @@ func (c *kase) canon(o *obs) string {
 		pols = append(pols, ps+"/"+iss+"/"+strconv.Itoa(p.managers))
 	}
 	sb.WriteString(" p=" + joinOr(";", pols))
-	var srvs []string
+	var srvs, served []string
 	seen := map[string]bool{}
 	for i, s := range c.servers {
 		seen[s.name] = true
 		if os, ok := o.servers[s.name]; ok {
 			srvs = append(srvs, c.showServer("s"+strconv.Itoa(i), os))
+			if os.served != nil {
+				served = append(served, "s"+strconv.Itoa(i)+":"+strings.Join(os.served, ","))
+			}
 		} else {
 			srvs = append(srvs, "s"+strconv.Itoa(i)+"/missing")
 		}
@@ -967,8 +1069,12 @@ func (c *kase) canon(o *obs) string {
 			key = "new"
 		}
 		srvs = append(srvs, c.showServer(key, o.servers[name]))
+		if o.servers[name].served != nil {
+			served = append(served, key+":"+strings.Join(o.servers[name].served, ","))
+		}
 	}
 	sb.WriteString(" s=" + joinOr(";", srvs))
+	sb.WriteString(" h=" + joinOr(";", served))
 	return sb.String()
 }
 
@@ -983,7 +1089,7 @@ func (c *kase) flagsOK() bool {
 			return false
 		}
 		for j, m := range c.names {
-			if certmagic.MatchWildcard(n.s, m.s) != n.mw[j] {
+			if certmagic.MatchWildcard(n.s, m.s) != n.mw[j] || hostMatches(n.s, m.s) != n.hm[j] {
 				return false
 			}
 		}
